@@ -693,3 +693,43 @@ M("c17-plugin-enumeration-dedup-by-name", "C17", "C17.FAN", (CSVC, _PG_OLD, """ 
                 seen.add(plugin.name)
                 yield plugin
 """))
+
+# ------------------------------------------------------------------ Cxx.DIAG: the agent's own log statements are inert
+M("c02-log-eager-percent-single-value", "C02", "C02.DIAG",
+  (ACTX, "            variable_id, log_str = var_processor.process_variable(watch, result)\n",
+   "            deep.logging.debug(\"evaluated '\" + watch + \"' -> %s\" % result)\n            variable_id, log_str = var_processor.process_variable(watch, result)\n"))
+M("c12-log-slices-optional-hash", "C12", "C12.DIAG",
+  (TH, "        self._handler.new_config(new_config)\n", "        logging.debug(\"config %s with %s triggers\", current_hash[:8], len(new_config))\n        self._handler.new_config(new_config)\n"))
+M("c13-log-consumes-callers-watches", "C13", "C13.DIAG",
+  (DEEP, "        tp_id = self.config.tracepoints.add_custom(path, line, args, watches, metrics)\n",
+   "        deep.logging.debug(\"registering %s:%s watches=%s\", path, line, \", \".join(watches))\n        tp_id = self.config.tracepoints.add_custom(path, line, args, watches, metrics)\n"))
+M("c11-log-compares-trigger-lists", "C11", "C11.DIAG",
+  (TH, "        self._tp_config = new_config\n", "        logging.debug(\"new config (%s)\", \"changed\" if new_config != self._tp_config else \"unchanged\")\n        self._tp_config = new_config\n"))
+M("c17-log-evaluates-again", "C17", "C17.DIAG",
+  (METR, "                deep.logging.exception(\"Cannot process metric expression %s\", metric.expression)",
+   "                deep.logging.exception(\"Cannot process metric expression %s (%s)\", metric.expression, self.eval_watch(metric.expression, 'METRIC')[2])"))
+R("c12-log-plain-values", "C12",
+  (TH, "        self._handler.new_config(new_config)\n", "        logging.debug(\"config %s with %s triggers\", current_hash, len(new_config))\n        self._handler.new_config(new_config)\n"))
+R("c14-log-duration", "C14",
+  (POLLF, "from deep.utils import time_ns, RepeatedTimer\n", "import time\nfrom deep.utils import time_ns, RepeatedTimer\n"),
+  (POLLF, "        response = stub.poll(request, metadata=self.grpc.metadata())\n",
+   "        started = time.monotonic()\n        response = stub.poll(request, metadata=self.grpc.metadata())\n        logging.debug(\"poll took %s\", time.monotonic() - started)\n"))
+
+# ------------------------------------------------------------------ other round-7 rules
+M("c02-frame-type-by-identity", "C02", "C02.TYPE", (SNAP, "        if config_type == NO_FRAME_TYPE:\n", "        if config_type is NO_FRAME_TYPE:\n"))
+M("c04-fire-recorded-conditionally", "C04", "C04.UNITS", (TRG, "        self.__stats.fire(ts)\n", "        if ts >= self.__stats.last_fire:\n            self.__stats.fire(ts)\n"))
+M("c07-collector-second-guesses-the-cache", "C07", "C07.INJECT",
+  ("src/deep/processor/variable_set_processor.py", "        return self.__var_cache.check_id(identity_hash_id)\n",
+   "        var_id = self.__var_cache.check_id(identity_hash_id)\n        if var_id is not None and var_id not in self.__var_lookup:\n            return None\n        return var_id\n"))
+M("c08-int-range-one-bit-wide", "C08", "C08.TYPES", (GRPC, "        if -2 ** 63 <= value < 2 ** 63:\n", "        if value.bit_length() <= 64:\n"))
+M("c09-handler-state-on-the-class", "C09", "C09.E", (TASK, "        self._pending = {}\n", "        pass\n"), (TASK, "class TaskHandler:\n", "class TaskHandler:\n    _pending = {}\n"))
+M("c13-removal-by-equality", "C13", "C13.MATCH", (CFGS, "            if cfg is config:\n", "            if cfg == config:\n"))
+M("c16-watch-results-keyed-by-expression", "C16", "C16.PIPE", ("src/deep/api/tracepoint/eventsnapshot.py", "        self.watches.append(watch_result)\n", "        self._watches[:] = [w for w in self._watches if w.expression != watch_result.expression] + [watch_result]\n"))
+M("c16-message-inside-eager-format", "C16", "C16.ROLE", ("src/deep/api/plugin/python.py", "logging.info(log_msg + \" ctx=%s tracepoint=%s\" % (ctx_id, tp_id))", "logging.info((log_msg + \" ctx=%s tracepoint=%s\") % (ctx_id, tp_id))"))
+M("c17-metric-definitions-collapsed-by-name", "C17", "C17.FAN", (TRG, "        'metrics': metrics,\n", "        'metrics': list({m.name: m for m in metrics}.values()),\n"))
+R("c17-metric-definitions-copied", "C17", (TRG, "        'metrics': metrics,\n", "        'metrics': list(metrics),\n"))
+M("c18-empty-service-name-kept", "C18", "C18.CHAIN", (RESF, "        if not resource.attributes.get(SERVICE_NAME, None):\n", "        if resource.attributes.get(SERVICE_NAME, None) is None:\n"))
+M("c19-short-path-keeps-a-slash", "C19", "C19.FRAME", ("src/deep/processor/frame_collector.py", "            return filename[len(match):], is_app_frame\n",
+                                                       "            start = len(match) - 1 if match.endswith('/') else len(match)\n            return filename[start:], is_app_frame\n"))
+M("c06-live-collection-through-islice", "C06", "C06.TOTAL", (VPROC, "from typing import ", "from itertools import islice\nfrom typing import "),
+  (VPROC, "    for val_ in tuple(value):\n", "    for val_ in islice(value, 1000):\n"))
